@@ -46,6 +46,24 @@ func plans(id, tier string) (Plan, bool) {
 			jobs = append(jobs, Job{Pkg: pkgV2, Harness: "c01_sequences", Params: "t=" + t, Shards: pick(2, 8)})
 		}
 		return Plan{Level: "exploration", Jobs: jobs}, true
+	case "C02":
+		return Plan{Level: "exploration", Jobs: []Job{
+			{Pkg: pkgV2, Harness: "c02_small", Shards: pick(8, 16)},
+			{Pkg: pkgV2, Harness: "c02_corpus", Params: "t=0.8", Shards: 16},
+		}}, true
+	case "C03":
+		return Plan{Level: "exploration", Jobs: []Job{
+			{Pkg: pkgV2, Harness: "c03_small", Shards: pick(6, 16)},
+			{Pkg: pkgV2, Harness: "c03_corpus", Params: "t=0.8", Shards: pick(10, 16)},
+			{Pkg: pkgV2, Harness: "c03_corpus", Params: "t=0.5;families=" + map[bool]string{false: "exact,scenario", true: "exact,edit1,truncate,scenario"}[th], Shards: pick(4, 16)},
+			{Pkg: pkgV2, Harness: "c03_bytes", Shards: pick(2, 8)},
+			{Pkg: pkgV2, Harness: "c03_names", Shards: 1},
+		}}, true
+	case "C07":
+		return Plan{Level: "exploration", Jobs: []Job{
+			{Pkg: pkgV2, Harness: "c07_small", Shards: pick(6, 16)},
+			{Pkg: pkgV2, Harness: "c07_corpus", Params: "t=0.8", Shards: 16},
+		}}, true
 	case "C20":
 		return Plan{Level: "model_checking", Jobs: []Job{
 			{Pkg: pkgSets, Harness: "c20_stringset", Shards: pick(4, 8)},
